@@ -61,12 +61,16 @@ Init ==
 ---------------------------------------------------------------------------
 (* external actions *)
 
+(* attribute "baddeps": the request names dependencies that do not exist (or is otherwise  *)
+(* unusable): the task is accepted, gets an id, and fails at once without ever starting   *)
 Enqueue(ds, lim, at) ==
-  /\ n < MaxTasks /\ ds \subseteq Ids
-  /\ pc' = Ext(pc, IF ds = {} THEN "waitcore" ELSE "waitdeps")
-  /\ st' = Ext(st, "SUBMITTED") /\ deps' = Ext(deps, ds) /\ limit' = Ext(limit, lim) /\ attr' = Ext(attr, at)
+  /\ n < MaxTasks /\ ds \subseteq Ids /\ ("baddeps" \in at => ds = {})
+  /\ pc' = Ext(pc, IF "baddeps" \in at THEN "done" ELSE IF ds = {} THEN "waitcore" ELSE "waitdeps")
+  /\ st' = Ext(st, IF "baddeps" \in at THEN "FAILED" ELSE "SUBMITTED")
+  /\ deps' = Ext(deps, ds) /\ limit' = Ext(limit, lim) /\ attr' = Ext(attr, at)
   /\ held' = Ext(held, FALSE) /\ proc' = Ext(proc, "none") /\ rc' = Ext(rc, 0)
-  /\ timer' = Ext(timer, NoTime) /\ outcome' = Ext(outcome, "none") /\ cause' = Ext(cause, "none")
+  /\ timer' = Ext(timer, NoTime) /\ outcome' = Ext(outcome, "none")
+  /\ cause' = Ext(cause, IF "baddeps" \in at THEN "startfailed" ELSE "none")
   /\ n' = n + 1
   /\ UNCHANGED <<started, free, now>>
 
@@ -129,9 +133,17 @@ Acquire(t) ==
   /\ st' = [st EXCEPT ![t] = "RUNNING"] /\ pc' = [pc EXCEPT ![t] = "spawning"]
   /\ UNCHANGED <<n, deps, limit, attr, proc, rc, timer, outcome, cause, started, now>>
 
+(* attribute "badlimit": the request is unusable in a way that shows only after the process *)
+(* was started (e.g. a time limit that is not a number): the process is killed at once and *)
+(* the task ends FAILED after the grace second                                             *)
 Spawn(t) ==
   /\ pc[t] = "spawning"
-  /\ IF "startfails" \in attr[t]
+  /\ IF "badlimit" \in attr[t]
+     THEN /\ proc' = [proc EXCEPT ![t] = "exited"] /\ pc' = [pc EXCEPT ![t] = "killing"]
+          /\ started' = Append(started, t)
+          /\ timer' = [timer EXCEPT ![t] = now + 1]
+          /\ UNCHANGED <<st, cause, held, free>>
+     ELSE IF "startfails" \in attr[t]
      THEN /\ st' = [st EXCEPT ![t] = "FAILED"] /\ pc' = [pc EXCEPT ![t] = "done"]
           /\ cause' = [cause EXCEPT ![t] = "startfailed"]
           /\ held' = [held EXCEPT ![t] = FALSE] /\ free' = free + 1
@@ -140,7 +152,9 @@ Spawn(t) ==
           /\ started' = Append(started, t)
           /\ timer' = [timer EXCEPT ![t] = IF limit[t] > 0 THEN now + limit[t] ELSE NoTime]
           /\ UNCHANGED <<st, cause, held, free>>
-  /\ UNCHANGED <<n, deps, limit, attr, rc, outcome, now>>
+  /\ outcome' = [outcome EXCEPT ![t] = IF "badlimit" \in attr[t] THEN "FAILED" ELSE @]
+  /\ rc' = [rc EXCEPT ![t] = IF "badlimit" \in attr[t] THEN -9 ELSE @]
+  /\ UNCHANGED <<n, deps, limit, attr, now>>
 
 (* the process has ended by itself: write the logs, record the result, give the core back *)
 Finish(t) ==
@@ -163,7 +177,8 @@ TimeOut(t) ==
 KillDone(t) ==
   /\ pc[t] = "killing" /\ timer[t] <= now
   /\ st' = [st EXCEPT ![t] = outcome[t]]
-  /\ cause' = [cause EXCEPT ![t] = IF outcome[t] = "KILLED" THEN "timeout" ELSE cause[t]]
+  /\ cause' = [cause EXCEPT ![t] = IF outcome[t] = "KILLED" THEN "timeout"
+                                   ELSE IF outcome[t] = "FAILED" THEN "badrequest" ELSE cause[t]]
   /\ pc' = [pc EXCEPT ![t] = "done"] /\ timer' = [timer EXCEPT ![t] = NoTime]
   /\ held' = [held EXCEPT ![t] = FALSE] /\ free' = free + 1
   /\ UNCHANGED <<n, deps, limit, attr, proc, rc, outcome, started, now>>
@@ -215,6 +230,7 @@ C13_FinalMatches ==
        [] cause[t] = "startfailed" -> st[t] = "FAILED" /\ ~WasStarted(t)
        [] cause[t] = "logfailed"   -> st[t] = "FAILED"
        [] cause[t] = "timeout"     -> st[t] = "KILLED"
+       [] cause[t] = "badrequest"  -> st[t] = "FAILED"
        [] cause[t] \in {"cancelled", "cancel-during-kill"} -> st[t] = "CANCELLED"
        [] OTHER                    -> st[t] \in Final \ {"COMPLETED"}      \* inherited from a dependency
 C13_DoneIsFinal   == \A t \in Ids : (pc[t] = "done" <=> st[t] \in Final) \/ (st[t] = "CANCELLED" /\ pc[t] = "killing")
